@@ -2,7 +2,7 @@
 //! Line protocol (inputs only):   display <dec> | parse <hex utf8> | add <dec> <dec> | sub <dec> <dec>
 //! Output: display -> hex of the printed string; parse -> "ok <dec>" | "err <class>"; add/sub -> "some <dec>" | "none"
 use ant_evm::{Amount, AttoTokens, EvmError};
-use common::{hex, unhex, Args, Out, Rng};
+use common::{hex, unhex, Out, Rng};
 use num_bigint::BigUint;
 use std::panic::catch_unwind;
 use std::str::FromStr;
@@ -197,7 +197,8 @@ fn malformed_string(rng: &mut Rng) -> String {
     }
 }
 
-pub fn run(args: &Args) {
+fn main() {
+    let args = &common::parse_args();
     let mut out = Out::new(&args.out);
     std::panic::set_hook(Box::new(|_| {}));
     let lines: Vec<String> = if let Some(p) = &args.replay {
